@@ -13,7 +13,9 @@ steps can be interleaved anywhere between them:
               (fails if the address is in use); on failure the descriptors obtained so far are closed again
   serve       second loop of startServers: every server of the new instance accepts
   stopOld     Instance.Stop of the old instance begins
-  stop        … one server per step: its listener is closed (it stops accepting)
+  stop        … one server per step: its listener is closed (it stops accepting) — whether or not the drain of that
+              server's connections completes within the graceful period: `Shutdown` returning `context deadline exceeded`
+              is logged by `Instance.Stop` and the loop goes on to the remaining servers
   finish      Restart returns the new instance
 
 Clients:  connect a     a fresh connection to address a: refused iff no socket is bound (no descriptor open);
@@ -214,6 +216,8 @@ structure HObs where
   sk2 : Nat
   p1 : String
   p2 : String
+  /-- length of casket's instance list -/
+  ni : Nat
   mid : Option String
   str : Option String
 deriving DecidableEq, Repr
@@ -221,11 +225,15 @@ deriving DecidableEq, Repr
 inductive HOp where
   | reload (c : Cfg)
   | straddle (c : Cfg)
+  /-- a reload while a request on address 1 stays in flight longer than the graceful period: the drain of that server times
+  out, `Restart` returns, the request completes afterwards -/
+  | longflight (c : Cfg)
 deriving DecidableEq, Repr
 
 def HOp.cfg : HOp → Cfg
   | .reload c => c
   | .straddle c => c
+  | .longflight c => c
 
 /-- `Restart` up to (not including) its return, with no client step in between -/
 def reloadHead (g : Nat) (m : M) (c : Cfg) : List Act :=
@@ -257,13 +265,20 @@ def rename (seen : List Nat) (m : M) (a : Nat) : List Nat × Nat :=
     | some i => (seen, i + 1)
     | none => (seen ++ [m.sock a], seen.length + 1)
 
+/-- instances in casket's list: the current one, and the one being started while a reload is under way -/
+def instCount (m : M) : Nat :=
+  match m.phase with
+  | .idle => 1
+  | .loading _ _ => 1
+  | _ => 2
+
 def observe (seen : List Nat) (m : M) (res : String) (mid str : Option String) : M × List Nat × HObs :=
   let r1 := rename seen m 1
   let r2 := rename r1.1 m 2
   let q1 := probe m 1
   let q2 := probe q1.1 2
   (q2.1, r2.1, { res := res, fd1 := m.fds 1, fd2 := m.fds 2, sk1 := r1.2, sk2 := r2.2, p1 := q1.2, p2 := q2.2,
-                 mid := mid, str := str })
+                 ni := instCount m, mid := mid, str := str })
 
 /-- `Restart` returned the instance of generation `g` -/
 def resOf (m : M) (g : Nat) : String := if m.cur.gen = g then "ok" else "err"
@@ -282,6 +297,14 @@ def runOp (g : Nat) (seen : List Nat) (m : M) : HOp → M × List Nat × HObs
     let str := if connected then connAnswer m2 sidx else "-"
     let m3 := step m2 .finish
     observe seen m3 (resOf m3 g) (some q.2) (some str)
+  | .longflight c =>
+    let sidx := m.conns.length
+    let m0 := run m [.connect 1, .accept m.cur.gen 1]
+    let connected := m0.conns.length != sidx
+    let m1 := run m0 (reloadHead g m0 c ++ [.finish])
+    let m2 := if connected then step m1 (.respond m.nextConn) else m1
+    let str := if connected then connAnswer m2 sidx else "-"
+    observe seen m2 (resOf m2 g) none (some str)
 
 def runOps : Nat → List Nat → M → List HOp → List HObs
   | _, _, _, [] => []
